@@ -2177,7 +2177,18 @@ int cif_value_init_numb(cif_value_tp *n, double val, double su, int scale, int m
         FAILURE_HANDLING;
         struct numb_value_s *numb = &(n->as_numb);
         int most_significant_place = MSP(val);
-        char *locale = setlocale(LC_NUMERIC, "C");
+        /* setlocale() returns the _new_ locale when it sets one, so the current one must be queried and copied first */
+        char *locale = setlocale(LC_NUMERIC, NULL);
+
+        if (locale != NULL) {
+            locale = strdup(locale);
+            if (locale == NULL) {
+                SET_RESULT(CIF_MEMORY_ERROR);
+            } else if (setlocale(LC_NUMERIC, "C") == NULL) {
+                free(locale);
+                locale = NULL;
+            }
+        }
 
         if (locale != NULL) {
             char *digit_buf = to_digits(val, scale);
@@ -2233,6 +2244,7 @@ int cif_value_init_numb(cif_value_tp *n, double val, double su, int scale, int m
 
                     /* restore the original locale */
                     setlocale(LC_NUMERIC, locale);
+                    free(locale);
 
                     return CIF_OK;
                 }
@@ -2245,6 +2257,7 @@ int cif_value_init_numb(cif_value_tp *n, double val, double su, int scale, int m
 
             /* restore the original locale */
             setlocale(LC_NUMERIC, locale);
+            free(locale);
         }
 
         FAILURE_TERMINUS;
@@ -2282,7 +2295,18 @@ int cif_value_autoinit_numb(cif_value_tp *numb, double val, double su, unsigned 
             int result_code = CIF_INTERNAL_ERROR;
 
             /* number formatting and parsing must be done in the C locale to ensure portability */
-            char *locale = setlocale(LC_NUMERIC, "C");
+            /* setlocale() returns the _new_ locale when it sets one, so the current one must be queried and copied */
+            char *locale = setlocale(LC_NUMERIC, NULL);
+
+            if (locale != NULL) {
+                locale = strdup(locale);
+                if (locale == NULL) {
+                    result_code = CIF_MEMORY_ERROR;
+                } else if (setlocale(LC_NUMERIC, "C") == NULL) {
+                    free(locale);
+                    locale = NULL;
+                }
+            }
 
             if (locale != NULL) {
                 char buf[BUF_SIZE];
@@ -2337,6 +2361,7 @@ int cif_value_autoinit_numb(cif_value_tp *numb, double val, double su, unsigned 
                 } /* else the formatted su overflowed, despite our checks.  The su_rule must be very large. */
 
                 (void) setlocale(LC_NUMERIC, locale);
+                free(locale);
             }
 
             return result_code;
